@@ -176,6 +176,8 @@ pub struct ProbeLog {
   pub panic_at: AtomicUsize,
   /// fault: the callback takes this much (virtual) time before it returns
   pub busy_ns: std::sync::atomic::AtomicU64,
+  /// 0 = every callback is that slow; k = only the k-th one
+  pub busy_only_at: AtomicUsize,
 }
 
 impl ProbeLog {
@@ -211,7 +213,8 @@ impl ProbeLog {
       harness_yield("probe-callback");
     }
     let busy = self.busy_ns.load(SeqCst);
-    if busy > 0 {
+    let only = self.busy_only_at.load(SeqCst);
+    if busy > 0 && (only == 0 || only == idx + 1) {
       sh.advance_to(sh.now().saturating_add(busy));
     }
     self.inside.fetch_sub(1, SeqCst);
